@@ -99,27 +99,21 @@ Proof. vm_compute. repeat split; reflexivity. Qed.
    3.-7. semantic actions
    --------------------------------------------------------------------------------------- *)
 
-(* constant arithmetic: no crash unless a divisor evaluates to 0; and nothing else crashes *)
+(* constant arithmetic never crashes: a zero divisor is a CalculationExpressionError (fix ba6c9a1) *)
 Theorem C09_actions_total_const_expr :
-  forall env e, div_safe env e = true -> is_crash (ceval env e) = false.
+  forall env e, is_crash (ceval env e) = false.
 Proof. exact ceval_total. Qed.
 Print Assumptions C09_actions_total_const_expr.
 
-Theorem C09_const_expr_only_crash_is_div_zero :
-  forall env e x, ceval env e = Crash x -> x = ZeroDivisionError.
-Proof. exact ceval_crash_is_div_zero. Qed.
-Print Assumptions C09_const_expr_only_crash_is_div_zero.
-
-
 (* items a scope does not support: every alternative of the two grammar rules ends in a
-   ParserError that _main.py reports — except `import` inside a message *)
+   ParserError that _main.py reports (incl. `import` inside a message, fix 5271e56) *)
 Theorem C09_actions_total_enum_items :
   forall i, In i enum_items -> is_parser_error (enum_item_outcome i) = true.
 Proof. apply forallb_forall. exact enum_items_total. Qed.
 Print Assumptions C09_actions_total_enum_items.
 
 Theorem C09_actions_total_message_items :
-  forall i, In i message_items -> i <> IImport -> is_parser_error (message_item_outcome i) = true.
+  forall i, In i message_items -> is_parser_error (message_item_outcome i) = true.
 Proof. exact message_items_total. Qed.
 Print Assumptions C09_actions_total_message_items.
 
@@ -165,7 +159,8 @@ Print Assumptions C09_option_get_after_check.
 
 Example C09_actions_nonvacuous :
   ceval [("A"%string, BInt 7)] (CDiv (CAdd (CRef "A") (CLitE 5)) (CSub (CLitE 0) (CLitE 5))) = Ok (-3) /\
-  div_safe [("A"%string, BInt 7)] (CDiv (CAdd (CRef "A") (CLitE 5)) (CSub (CLitE 0) (CLitE 5))) = true /\
+  ceval [] (CDiv (CLitE 1) (CSub (CLitE 2) (CLitE 2))) = ParserError "CalculationExpressionError"%string /\
+  message_item_outcome IImport = ParserError "ImportInMessageUnsupported"%string /\
   ceval [("A"%string, BBool true)] (CAdd (CRef "A") (CLitE 1)) = ParserError "CalculationExpressionError"%string /\
   option_check "message" "max_bytes" (OVInt 3) = Ok tt /\
   option_check "message" "max_bytes" (OVBool true) = ParserError "InvalidOptionValue"%string /\
@@ -178,23 +173,14 @@ Proof. vm_compute. repeat split; reflexivity. Qed.
    --------------------------------------------------------------------------------------- *)
 
 Theorem C09_render_total :
-  forall l t consts,
-    no_empty_enum t = true -> ints_small consts = true -> render l t consts = Ok tt.
+  forall l t consts, ints_small consts = true -> render l t consts = Ok tt.
 Proof. exact render_total. Qed.
 Print Assumptions C09_render_total.
-
-Theorem C09_render_py_crash_iff_empty_enum :
-  forall t, py_enum_default_guarded = false ->
-            no_empty_enum t = false -> py_render_defaults t = Crash IndexError.
-Proof. intros t Hg. exact (py_render_defaults_crash t Hg). Qed.
-Print Assumptions C09_render_py_crash_iff_empty_enum.
-
-
 
 Example C09_render_nonvacuous :
   render LPy (TMsg false [(1, TArr false 3 (TEnum 3 [0; 1])); (2, TAlias (TArr true 2 TByte));
                           (3, TMsg true [(1, TEnum 8 [5])])]) [0; 2 ^ 64; -(10 ^ 40)] = Ok tt /\
-  no_empty_enum (TMsg false [(1, TArr false 3 (TEnum 3 [0; 1]))]) = true.
+  render LPy (TMsg false [(1, TEnum 3 []); (2, TArr false 2 (TEnum 1 []))]) [] = Ok tt.
 Proof. vm_compute. split; reflexivity. Qed.
 
 (* ---------------------------------------------------------------------------------------
